@@ -457,6 +457,8 @@ def check(ctx):
     neighbourhood(ctx)
     forwarding(ctx)
     redecode(ctx)
+    from .c11 import open_choice_connectors as _occ
+    _occ(ctx)      # partial graphs of the candidate loop are judged by `.feasible`
     candidate_errors(ctx)
     ctx.floor('A5q', 3, 'explicit errors while a candidate vector is built')
     linked_collapse(ctx)
